@@ -66,20 +66,34 @@ def apply_shuffle(clauses, flips, perm, cperm):
 
 
 def find_witness(n, clauses, result, fix_flips, fix_vars, fix_clauses):
-    """All (flips, perm, cperm) explaining `result`; switched-off components
-    are forced to the identity."""
+    """Witnesses (flips, perm, cperm) explaining `result` (at most one clause
+    mapping per signed permutation is returned); switched-off components are
+    forced to the identity.  Exhaustive over all signed permutations; the
+    clause mapping is derived by matching (any matching of equal clauses is a
+    valid permutation of positions)."""
     M = len(clauses)
     wit = []
     flipss = [tuple([1] * n)] if fix_flips else list(itertools.product((1, -1), repeat=n))
     perms = [tuple(range(1, n + 1))] if fix_vars else list(itertools.permutations(range(1, n + 1)))
-    cperms = [tuple(range(M))] if fix_clauses else list(itertools.permutations(range(M)))
+    res_t = [tuple(c) for c in result]
+    res_sorted = sorted(res_t)
     for fl in flipss:
         for pm in perms:
-            mapped = [[(1 if l > 0 else -1) * fl[abs(l) - 1] * pm[abs(l) - 1] for l in c]
+            mapped = [tuple((1 if l > 0 else -1) * fl[abs(l) - 1] * pm[abs(l) - 1] for l in c)
                       for c in clauses]
-            for cp in cperms:
-                if all(result[cp[i]] == mapped[i] for i in range(M)):
-                    wit.append((fl, pm, cp))
+            if fix_clauses:
+                if mapped == res_t:
+                    wit.append((fl, pm, tuple(range(M))))
+                continue
+            if sorted(mapped) != res_sorted:
+                continue
+            free = {}
+            for j, c in enumerate(res_t):
+                free.setdefault(c, []).append(j)
+            cp = []
+            for c in mapped:
+                cp.append(free[c].pop(0))
+            wit.append((fl, pm, tuple(cp)))
     return wit
 
 
